@@ -393,12 +393,35 @@ def r08_11(ctx):
            path=None if not again else cfg.path(starts, [again[0].id], block_nodes=tests))
 
 
+
+def r08_13(ctx):
+    ctx.rule('R08.13', 'terminate() signals the workers before it joins the result handler: that thread drains until the '
+                       'cache is empty or the workers are gone, so joined first it waits for the running tasks', floor=1)
+    m = ctx.model
+    fi = m.func('pool:Pool._terminate_pool')
+    cfg = fi.cfg
+    term = [n for (n, c) in q.calls(fi, lambda t: t.endswith('.terminate') and not t.startswith('timeout_handler')
+                                    and not t.startswith('result_handler') and not t.startswith('task_handler'))]
+    stops = [n for (n, c) in q.calls(fi, 'result_handler.stop')]
+    q.need(term and stops, '_terminate_pool: worker terminate loop or result_handler.stop() not found')
+    after = cfg.reach([s.id for s in stops], skip_labels=('x',))
+    late = [t for t in term if t.id in after]
+    ctx.ob('R08.13', '_terminate_pool:workers-signalled-before-result-handler-joined', not late, fi,
+           late[0] if late else stops[0],
+           'p.terminate() for every worker precedes result_handler.stop()' if not late else
+           'result_handler.stop() is reached before the workers were signalled: terminate() waits for the running tasks '
+           '(for ever, with jobs still queued)')
+
+
 def run(ctx):
+    r08_13(ctx)
     # the finalizer got the worker list at construction: it terminates the workers on *that* list
     from .c07 import r07_2
     from ..report import Only
-    r07_2(Only(ctx, ('rebind',), floor=1, doc='the lists and tables handed to the helper threads and to the finalizer '
-                                              'are mutated in place, never re-bound'))
+    r07_2(Only(ctx, ('rebind', 'tell_others-on-every-normal-exit'), floor=2,
+               doc='the lists and tables handed to the helper threads and to the finalizer are mutated in place, never '
+                   're-bound; the feeder sends the shutdown sentinels on every way out of its loop (the finalizer '
+                   'blocks on the task-queue lock an idle worker holds until its sentinel arrives)'))
     r08_12(ctx)
     r08_11(ctx)
     r08_9(ctx)
@@ -429,6 +452,8 @@ def run(ctx):
 _P ='billiard/pool.py'
 _C = 'billiard/common.py'
 MUTANTS = [
+    ('result-handler-joined-before-workers-signalled', _P, "        # Terminate workers which haven't already finished\n        if pool and hasattr(pool[0], 'terminate'):\n            debug('terminating workers')\n            for p in pool:\n                if p._is_alive():\n                    p.terminate()\n\n        debug('joining task handler')\n        cls._stop_task_handler(task_handler)\n\n        debug('joining result handler')\n        result_handler.stop()\n",
+     "        debug('joining task handler')\n        cls._stop_task_handler(task_handler)\n\n        debug('joining result handler')\n        result_handler.stop()\n\n        # Terminate workers which haven't already finished\n        if pool and hasattr(pool[0], 'terminate'):\n            debug('terminating workers')\n            for p in pool:\n                if p._is_alive():\n                    p.terminate()\n", 'R08.13'),
     ('terminate-sends-a-literal-SIGTERM', 'billiard/popen_fork.py', "                os.kill(self.pid, TERM_SIGNAL)\n", "                os.kill(self.pid, signal.SIGTERM)\n", 'R08.12'),
     ('reaper-rebinds-the-worker-list', _P, "                del self._pool[i]\n                del self._poolctrl[worker.pid]\n",
      "                self._pool = [w for w in self._pool if w is not worker]\n                del self._poolctrl[worker.pid]\n", 'R07.2'),
